@@ -53,8 +53,20 @@ def sock_stubs(frames: Optional[Callable] = None, extra=None) -> Dict[str, Calla
             return ret
         return f
 
-    for m in ("close", "shutdown", "settimeout", "ping", "pong", "send", "abort", "send_close"):
+    for m in ("settimeout", "ping", "pong", "send", "abort", "send_close"):
         st[f"appsock.{m}"] = eff(f"appsock.{m}")
+
+    def gone(name):
+        # close() / shutdown() of the low-level object leave it unconnected, as the real methods do
+        def f(I, run, args, kwargs, node):
+            run.effect(name, args[1:] if args and isinstance(args[0], Ref) else args, kwargs, node=node)
+            if args and isinstance(args[0], Ref):
+                run.cell(args[0]).fields["connected"] = FALSE
+            return NONE
+        return f
+
+    for m in ("close", "shutdown"):
+        st[f"appsock.{m}"] = gone(f"appsock.{m}")
     st["appsock.connect"] = eff("appsock.connect")
     if frames is not None:
         st["appsock.recv_data_frame"] = frames
@@ -76,6 +88,9 @@ def frame_source(ops=("TEXT", "BINARY", "CONT", "CLOSE", "PING", "PONG"), errors
         n = len(ops) + len(errors)
         ch = run.choose(n, I.locof(node), "frame: " + " / ".join(list(ops) + [e.split(":")[-1] for e in errors]))
         if ch >= len(ops):
+            # a lost connection is noticed by the low-level object first: it drops its transport and is no longer `connected`
+            if args and isinstance(args[0], Ref) and errors[ch - len(ops)] != TIMEOUT_EXC:
+                run.cell(args[0]).fields["connected"] = FALSE
             raise_exc(I, run, errors[ch - len(ops)], node, "recv-error")
         op = OPS[ops[ch]]
         data = Sym("fdata", "bytes")
